@@ -430,6 +430,7 @@ func keepsFrame(op compiler.Opcode) bool {
     ensures @out-of-memory instruction.Opcode() == compiler.Opcode_AddMempointer ==> (result != nil <==> self.MemoryPointer >= int64(self.Limits.MaxMemorySize))
     ensures @out-of-memory-kind instruction.Opcode() == compiler.Opcode_AddMempointer && result != nil ==> fatalOf(result, value.Vm_OutOfMemoryErrorKind)
     ensures @try-push instruction.Opcode() == compiler.Opcode_SetTryLabel ==> len(self.ExceptionCatchLabels) == old(len(self.ExceptionCatchLabels))+1 && self.ExceptionCatchLabels[len(self.ExceptionCatchLabels)-1].Function == instruction.(compiler.OneIntOneStringInstruction).ValueString && self.ExceptionCatchLabels[len(self.ExceptionCatchLabels)-1].InstructionPointer == uint(instruction.(compiler.OneIntOneStringInstruction).ValueInt)
+    ensures @try-record instruction.Opcode() == compiler.Opcode_SetTryLabel ==> len(self.tryStates) == old(len(self.tryStates))+1 && self.tryStates[len(self.tryStates)-1].frameIndex == uint(len(self.CallStack)-1) && self.tryStates[len(self.tryStates)-1].stackHeight == uint(len(self.Stack)) && self.tryStates[len(self.tryStates)-1].memoryPointer == self.MemoryPointer
     ensures @try-pop instruction.Opcode() == compiler.Opcode_PopTryLabel ==> len(self.ExceptionCatchLabels) == old(len(self.ExceptionCatchLabels))-1
     ensures @call instruction.Opcode() == compiler.Opcode_Call_Imm ==> len(self.CallStack) == old(len(self.CallStack))+1 && self.frameIP() == 0 && self.CallStack[len(self.CallStack)-1].Function == instruction.(compiler.OneStringInstruction).Value && self.CallStack[len(self.CallStack)-2].InstructionPointer == old(self.frameIP())+1
     ensures @return instruction.Opcode() == compiler.Opcode_Return ==> len(self.CallStack) == old(len(self.CallStack))-1
